@@ -159,6 +159,9 @@ package engine
 //@   ensures (err != nil) == errNeg(a, factstore.view(store), subst)
 //@   ensures err == nil ==> result == solNeg(a, factstore.view(store), subst)
 //@   guard call EvalAtom: arg0 == a && arg1 == subst
+// ... and a negated built-in decides that same evaluated atom (comparisons read their operands straight from it)
+//@   guard call Decide: arg0 == n
+//@   guard call GetFacts: arg0 == n
 //@   guard call GetFacts: recv == store && arg0 == n
 //@   guard call Decide: arg0 == n
 
